@@ -107,6 +107,12 @@ for _m in (163, 233, 409, 571):
     CONFIGS["fb-%d" % _m] = _cfg(OPTS=dict(FB_POLYN=_m))
 for _b in (315, 317, 330, 354, 377, 382, 383, 446, 455, 508, 509, 510, 544, 569, 575, 638, 765, 766, 768):
     CONFIGS["pf-%d" % _b] = _cfg(OPTS=dict(FP_PRIME=_b, BN_PRECI=max(1024, 2 * _b + 64)))
+# B48_P575 is only selectable with FP_QNRES=on and needs a larger precision (C11)
+CONFIGS["pf-575-q"] = _cfg(OPTS=dict(FP_PRIME=575, BN_PRECI=4608, FP_QNRES="on"))
+# extension-field method variants (C10)
+CONFIGS["fpx-basic"] = _cfg(OPTS=dict(FPX_METHD="BASIC;BASIC;BASIC"))
+CONFIGS["pf-508-epbasic"] = _cfg(OPTS=dict(FP_PRIME=508, BN_PRECI=2 * 508 + 64, EP_METHD="BASIC;LWNAF;COMBS;INTER;SSWUM"))
+CONFIGS["pf-508-fpxbasic"] = _cfg(OPTS=dict(FP_PRIME=508, BN_PRECI=2 * 508 + 64, FPX_METHD="BASIC;BASIC;BASIC"))
 
 
 class BuildError(Exception):
